@@ -8,3 +8,13 @@ CHECKS["C01"] = {
     "note": "Trusted: the harness' own name formatter and coverage model (vp/gen/filesets.py), the local file system and fsspec's ZipFileSystem, Hypothesis. Preconditions built into the generator: unambiguous templates (placeholders separated by literals), files in the directory of their start and no longer than one directory period.",
     "technique": "property-based testing (Hypothesis) against a brute-force reference model over harness-owned ground truth",
 }
+CHECKS["C02"] = {
+    "text": "Generated templates (all documented temporal placeholders in directory and file part, repeated placeholders, full / partial / no end fields, user placeholders with default regex, fixed-width regex or value lists, literals with regex characters) and periods at the template's resolution (years 1000-9999 / 1965-2064, leap days, doy 366, roll-overs) are formatted by get_filename and parsed back by parse_filename / get_info; results are compared with the harness' own formatter and coverage model for all info_via modes (stub handler), names mutated so that they cannot match must raise ValueError, unknown / unfilled placeholders must raise their dedicated errors. Exploration over ~5000 templates x periods per quick run.",
+    "note": "Trusted: the harness' formatter / end-time model (datetime arithmetic only). Preconditions: unambiguous templates; partial ends start at end_hour/end_minute/end_second.",
+    "technique": "property-based testing (Hypothesis): round trip against an independent reference formatter/parser model, plus negative (mutated-name) cases",
+}
+CHECKS["C16"] = {
+    "text": "Generated templates, populations (gaps, overlaps, discrete files, ties), filters, exclude lists and timestamps (inside files, in gaps, on boundaries, far away, exactly on an existing name) are answered by find_closest / fileset[t]; the answer is checked with the validity predicate of the statement over the harness' file list (covering file if one exists in the neighbourhood, otherwise minimal end-point distance; never an excluded, filtered or far-away file; NoFilesError/None iff no candidate). Exploration.",
+    "note": "Trusted: harness ground truth of coverages. Files exactly on the edge of the neighbourhood window may be counted either way; for directory levels without temporal placeholder the neighbourhood is not defined by the statement (files within a year must be found).",
+    "technique": "property-based testing (Hypothesis) with a validity-predicate oracle over harness-owned ground truth",
+}
